@@ -17,6 +17,10 @@ COMPS_Q = [{"C": 1}, {"C": 2}, {"C": 1, "H": 2}, {"H": 2, "O": 1}, {"C": 2, "H":
 # isotope-labelled elements (every spelling of deuterium/tritium): one peak at that isotope's mass, offset 0 in the neutron view
 COMPS_L = [{"13C": 1, "H": 2}, {"2H": 2, "O": 1}, {"D": 2, "O": 1}, {"T": 1, "3H": 1, "C": 1}, {"15N": 1, "18O": 1, "34S": 1}]
 COMPS_Q = COMPS_Q + COMPS_L
+# fractional element counts: the library rounds the counts and shifts every peak by the mass it rounded away
+COMPS_F = [{"C": 2.4, "H": 5, "N": 0.7}, {"C": 1.5, "H": 2}, {"H": 2.5, "O": 1, "S": 0.3}]
+COMPS_Q = COMPS_Q + COMPS_F
+F_NEUTRON_FRAC = "C14-F1"   # neutron-offset view with masses: the fractional-count correction is multiplied by the neutron mass
 COMPS_T = COMPS_Q + [{"C": 3, "H": 3, "N": 1, "O": 2}, {"Cl": 2, "C": 1}, {"C": 6, "H": 6}, {"N": 3, "O": 3}, {"C": 2, "S": 2}]
 SMALL = [{"C": 1}, {"C": 2}, {"C": 1, "H": 2}, {"H": 2, "O": 1}, {"C": 1, "N": 1, "H": 1}, {"Cl": 2}]
 
@@ -159,9 +163,10 @@ def main(p):
     return ob
 
 
-def _scaling_job(args) -> Obligation:
+def _scaling_job(args, excl=()) -> Obligation:
     """real isotope tables; distribution_abundance, threshold, particle counts, neutron mass symbolic"""
     comp, use_n, out_m, is_sum, with_particles = args
+    frac = any(not isinstance(v, int) for v in comp.values())
     import z3
     from .. import symreal as SR
     from ..e2lib import run_e2
@@ -216,8 +221,12 @@ def _scaling_job(args) -> Obligation:
         mono = sum(float(_mono(el)) * cnt for el, cnt in comp.items())
         if not use_n or out_m:
             want = mono
-            if with_particles and not (use_n and out_m):
+            if with_particles:
                 want = mono + SR.T(e) * K.ELECTRON_MASS + SR.T(p) * K.PROTON_MASS + SR.T(n) * K.NEUTRON_MASS
+            if use_n and out_m and frac and F_NEUTRON_FRAC in excl:
+                # known finding: (rounded-away mass) x neutron mass instead of the rounded-away mass
+                delta = mono - sum(float(_mono(el)) * round(cnt) for el, cnt in comp.items())
+                want = want + delta * (nm.t - 1)
             props.append(z3.Implies(th.t == 0, SR.close(masses[0], want, 1e-4)))
         else:
             props.append(z3.Implies(th.t == 0, SR.T(masses[0]) == 0))
@@ -237,7 +246,7 @@ def main(p):
     A, th, nm = m.get("abundance", 1.0), m.get("threshold", 0.0), m.get("neutron_mass", 1.0)
     d = isotopic_distribution(dict(f), min_abundance_threshold=th, use_neutron_count=p["use_n"], output_masses_for_neutron_offset=p["out_m"],
                               distribution_abundance=A, is_abundance_sum=p["is_sum"], neutron_mass=nm)
-    bad = []
+    bad = []; site = None
     if not p["use_n"] or not p["out_m"]:
         ref = isotopic_distribution(dict(comp), min_abundance_threshold=0.0, use_neutron_count=p["use_n"], distribution_abundance=1.0)
         keep = sum(1 for _, rel in ref if rel >= th)
@@ -251,16 +260,24 @@ def main(p):
         mono = sum(float(_mono(e)) * c for e, c in comp.items())
         if th == 0 and (not p["use_n"] or p["out_m"]):
             want = mono
-            if p["with_particles"] and not (p["use_n"] and p["out_m"]):
+            if p["with_particles"]:
                 want += f["e"] * K.ELECTRON_MASS + f["p"] * K.PROTON_MASS + f["n"] * K.NEUTRON_MASS
-            if abs(ms[0] - want) > 1e-4: bad.append(f"lightest peak {ms[0]} != monoisotopic mass incl. particles {want}")
-    return {"violated": bool(bad), "detail": f"isotopic_distribution({f}, use_neutron_count={p['use_n']}, output_masses={p['out_m']}, sum={p['is_sum']}, abundance={A}, threshold={th}): " + "; ".join(bad)}
+            delta = mono - sum(float(_mono(e)) * round(c) for e, c in comp.items())
+            frac_view = p["use_n"] and p["out_m"] and delta != 0
+            if frac_view and "C14-F1" in p["excl"]:
+                want += delta * (nm - 1)
+            if abs(ms[0] - want) > 1e-4:
+                bad.append(f"lightest peak {ms[0]} != monoisotopic mass incl. particles {want}")
+                if frac_view and "C14-F1" not in p["excl"] and abs(ms[0] - want - delta * (nm - 1)) <= 1e-4 and len(bad) == 1:
+                    site = "C14-F1"
+    return {"violated": bool(bad), "site": site, "detail": f"isotopic_distribution({f}, use_neutron_count={p['use_n']}, output_masses={p['out_m']}, sum={p['is_sum']}, abundance={A}, threshold={th}): " + "; ".join(bad)}
 '''
-        res = native_call(code, {"comp": comp, "model": model, "use_n": use_n, "out_m": out_m, "is_sum": is_sum, "with_particles": with_particles})
-        site = "C14-F1" if (res["violated"] and with_particles and "lightest peak" in res["detail"]) else None
-        return res["violated"], res["detail"], site
+        res = native_call(code, {"comp": comp, "model": model, "use_n": use_n, "out_m": out_m, "is_sum": is_sum, "with_particles": with_particles,
+                                 "excl": list(excl)})
+        return res["violated"], res["detail"], res.get("site")
 
-    oid = "scaling/" + "".join(f"{k}{v}" for k, v in comp.items()) + f"/n={int(use_n)}{int(out_m)}/sum={int(is_sum)}/particles={int(with_particles)}"
+    oid = "scaling/" + "".join(f"{k}{v}" for k, v in comp.items()) + f"/n={int(use_n)}{int(out_m)}/sum={int(is_sum)}/particles={int(with_particles)}" + \
+          ("/minus-" + "-".join(excl) if excl else "")
     ob = run_e2(oid, "sorted by mass; largest peak (or total) = requested abundance; lightest peak = monoisotopic mass incl. e/p/n", fn, functions=FUNCS,
                 bounds="requested abundance in (0,1e6], threshold in [0,1], neutron mass in (0.9,1.1), particle counts in [-5,5] symbolic; composition and isotope table concrete",
                 replay=replay, budget_s=120, max_paths=4000)
@@ -368,17 +385,30 @@ def _merge_job(args) -> Obligation:
 
 def _dispatch(job):
     kind, args = job
+    if kind == "scaling":
+        args, known = args
+        out = [_scaling_job(args)]
+        ob = out[0]
+        if ob.status == CEX and ob.replayed and ob.finding in known:
+            out.append(_scaling_job(args, excl=(ob.finding,)))      # the rest of the obligation, the finding's arithmetic assumed
+        return out
+    return [_dispatch1(job)]
+
+
+def _dispatch1(job):
+    kind, args = job
     return {"scaling": _scaling_job, "abundance": _abundance_job, "merge": _merge_job, "binning": _binning_job, "labels": _label_job}[kind](args)
 
 
 def run(tier: str, seed: int, only=None) -> Report:
     comps = COMPS_Q if tier == "quick" else COMPS_T
+    known = tuple(f["id"] for f in load_known_findings(PID))
     jobs = []
     for comp in comps:
         for use_n, out_m in ((False, False), (True, False), (True, True)):
             for is_sum in (False, True):
                 for wp in (False, True):
-                    jobs.append(("scaling", (comp, use_n, out_m, is_sum, wp)))
+                    jobs.append(("scaling", ((comp, use_n, out_m, is_sum, wp), known)))
     for comp in SMALL:
         for el in comp:
             jobs.append(("abundance", (comp, el)))
@@ -392,7 +422,6 @@ def run(tier: str, seed: int, only=None) -> Report:
     for i in range(0, len(labels), per):
         jobs.append(("labels", labels[i:i + per]))
     jobs += [("merge", ([1.0, 2.0], [2.0, 3.0])), ("merge", ([1.0, 2.5, 4.0], [0.5, 2.5])), ("merge", ([3.0, 1.0], [1.0, 3.0, 2.0])), ("merge", ([], [1.0]))]
-    known = tuple(f["id"] for f in load_known_findings(PID))
     rep = Report(
         property_id=PID, tier=tier, seed=seed,
         explanation="isotopic_distribution loops range(count) and keys dictionaries by rounded masses, so compositions and isotope masses are "
@@ -402,13 +431,13 @@ def run(tier: str, seed: int, only=None) -> Report:
                     "weighted mean = average mass (polynomial identities in the abundances); merging adds abundances at equal masses.",
         functions=FUNCS,
         bounds="compositions " + ", ".join("".join(f"{k}{v}" for k, v in c.items()) for c in comps) + "; mass view, neutron-count view, neutron view with masses; "
-               "is_abundance_sum both; with/without e/p/n; symbolic-abundance clauses on " + ", ".join("".join(f"{k}{v}" for k, v in c.items()) for c in SMALL),
-        outside="NOT claimed: counts up to 200 and fractional counts; max_isotopes / distribution_resolution interplay (hash/round of masses are realisation "
+               "is_abundance_sum both; with/without e/p/n (all three views; fractional counts included); symbolic-abundance clauses on " + ", ".join("".join(f"{k}{v}" for k, v in c.items()) for c in SMALL),
+        outside="NOT claimed: counts up to 200; max_isotopes / distribution_resolution interplay (hash/round of masses are realisation "
                 "points); estimate_isotopic_distribution; the neutron-offset view as a binning of the mass view",
         assumptions=["S5", "two-isotope model per element for the symbolic-abundance clauses", "lightest-peak clause asserted for threshold = 0 (no pruning)"],
     )
     with ProcessPoolExecutor(max_workers=NCPU, mp_context=mp.get_context("spawn")) as ex:
-        rep.obligations = list(ex.map(_dispatch, jobs))
+        rep.obligations = [o for lst in ex.map(_dispatch, jobs) for o in lst]
     return rep
 
 
